@@ -170,12 +170,121 @@ func (w *Wire) resolveSliceLit(info *types.Info, files []*ast.File, e ast.Expr) 
 					return true
 				})
 				if len(rets) == 1 && len(rets[0].Results) == 1 {
+					if els, ok := w.resolveBuiltSlice(info, files, fd, rets[0].Results[0]); ok {
+						return els, true
+					}
 					return w.resolveSliceLit(info, files, rets[0].Results[0])
 				}
 			}
 		}
 	}
 	return nil, false
+}
+
+// resolveBuiltSlice: the function returns a local slice that its straight-line body builds by appending — `v := make(…)` (or a
+// literal, or a bare declaration) followed only by `v = append(v, e…)` / `v = append(v, list…)` statements: the concatenation of the
+// appended elements, lists resolved recursively. Any other statement in the body, or any control flow, gives up.
+func (w *Wire) resolveBuiltSlice(info *types.Info, files []*ast.File, fd *ast.FuncDecl, ret ast.Expr) ([]ast.Expr, bool) {
+	rid, ok := ret.(*ast.Ident)
+	if !ok {
+		return nil, false
+	}
+	obj := info.Uses[rid]
+	if obj == nil {
+		return nil, false
+	}
+	var out []ast.Expr
+	defined := false
+	for _, st := range fd.Body.List {
+		switch x := st.(type) {
+		case *ast.ReturnStmt:
+			if !defined {
+				return nil, false
+			}
+			return out, true
+		case *ast.DeclStmt:
+			gd, ok := x.Decl.(*ast.GenDecl)
+			if !ok || len(gd.Specs) != 1 {
+				return nil, false
+			}
+			vs, ok := gd.Specs[0].(*ast.ValueSpec)
+			if !ok || len(vs.Names) != 1 || info.Defs[vs.Names[0]] != obj || len(vs.Values) > 1 {
+				return nil, false
+			}
+			if len(vs.Values) == 1 {
+				els, ok := w.resolveSliceLit(info, files, vs.Values[0])
+				if !ok {
+					return nil, false
+				}
+				out = append(out, els...)
+			}
+			defined = true
+		case *ast.AssignStmt:
+			if len(x.Lhs) != 1 || len(x.Rhs) != 1 {
+				return nil, false
+			}
+			lid, ok := x.Lhs[0].(*ast.Ident)
+			if !ok || (info.Defs[lid] != obj && info.Uses[lid] != obj) {
+				return nil, false
+			}
+			if !defined {
+				// v := make([]T, 0, n) | v := []T{…}
+				if c, isCall := x.Rhs[0].(*ast.CallExpr); isCall {
+					if fid, isId := c.Fun.(*ast.Ident); isId && fid.Name == "make" {
+						if len(c.Args) >= 2 {
+							if k, isC := constInt(info, c.Args[1]); !isC || k != 0 {
+								return nil, false
+							}
+						}
+						defined = true
+						continue
+					}
+				}
+				els, ok := w.resolveSliceLit(info, files, x.Rhs[0])
+				if !ok {
+					return nil, false
+				}
+				out = append(out, els...)
+				defined = true
+				continue
+			}
+			c, isCall := x.Rhs[0].(*ast.CallExpr)
+			if !isCall {
+				return nil, false
+			}
+			fid, isId := c.Fun.(*ast.Ident)
+			if !isId || fid.Name != "append" || len(c.Args) < 1 {
+				return nil, false
+			}
+			if a0, isId := c.Args[0].(*ast.Ident); !isId || info.Uses[a0] != obj {
+				return nil, false
+			}
+			if c.Ellipsis.IsValid() {
+				if len(c.Args) != 2 {
+					return nil, false
+				}
+				els, ok := w.resolveSliceLit(info, files, c.Args[1])
+				if !ok {
+					return nil, false
+				}
+				out = append(out, els...)
+			} else {
+				out = append(out, c.Args[1:]...)
+			}
+		default:
+			return nil, false
+		}
+	}
+	return nil, false
+}
+
+func constInt(info *types.Info, e ast.Expr) (int64, bool) {
+	if tv, ok := info.Types[e]; ok && tv.Value != nil {
+		if v, exact := constant.Int64Val(tv.Value); exact {
+			return v, true
+		}
+	}
+	return 0, false
 }
 
 func BuildWire(p *Prog) *Wire {
@@ -241,7 +350,14 @@ func BuildWire(p *Prog) *Wire {
 						w.Orders[key] = w.constList(info, args, key)
 					case name == "sdk/types/module.NewManager":
 						w.ManagerPos = x.Pos()
-						for _, a := range x.Args {
+						mgrArgs := x.Args
+						if x.Ellipsis.IsValid() && len(mgrArgs) == 1 {
+							// NewManager(list...) with the modules in a list helper
+							if elts, ok := w.resolveSliceLit(info, pk.Syntax, mgrArgs[0]); ok {
+								mgrArgs = elts
+							}
+						}
+						for _, a := range mgrArgs {
 							if c, ok := a.(*ast.CallExpr); ok {
 								if o := calleeObj(info, c); o != nil && o.Pkg() != nil {
 									w.Manager = append(w.Manager, o.Pkg().Path())
@@ -572,7 +688,20 @@ func wireAnte(p *Prog, r *Report, clause string) {
 				if !ok || objFull(calleeObj(pk.TypesInfo, c)) != "sdk/x/auth/ante.NewSigVerificationDecorator" || len(c.Args) != 2 {
 					return true
 				}
-				if inner, ok := c.Args[1].(*ast.CallExpr); ok && len(inner.Args) == 0 {
+				smh := c.Args[1]
+				// the handler may reach the constructor through a parameter of a list helper: follow it to the helper's call sites
+				for depth := 0; depth < 2; depth++ {
+					id, isId := smh.(*ast.Ident)
+					if !isId {
+						break
+					}
+					arg, okArg := soleArgumentOfParam(pk.TypesInfo, pk.Syntax, id)
+					if !okArg {
+						break
+					}
+					smh = arg
+				}
+				if inner, ok := smh.(*ast.CallExpr); ok && len(inner.Args) == 0 {
 					if sel, ok := inner.Fun.(*ast.SelectorExpr); ok && sel.Sel.Name == "SignModeHandler" {
 						if id, ok := sel.X.(*ast.Ident); ok {
 							if _, isParam := pk.TypesInfo.Uses[id].(*types.Var); isParam {
@@ -806,4 +935,55 @@ func checkInitGenesisCallers(p *Prog, r *Report, clause, mod string) {
 		}
 	}
 	r.Floor("callers-of-"+mod+".InitGenesis", n, 1)
+}
+
+// soleArgumentOfParam: id names a parameter of a function declared in files; when every call of that function in files passes
+// the same expression text for it and there is at least one call, that argument expression.
+func soleArgumentOfParam(info *types.Info, files []*ast.File, id *ast.Ident) (ast.Expr, bool) {
+	obj := info.Uses[id]
+	if obj == nil {
+		return nil, false
+	}
+	var fn types.Object
+	idx := -1
+	for _, f := range files {
+		for _, d := range f.Decls {
+			fd, ok := d.(*ast.FuncDecl)
+			if !ok || fd.Type.Params == nil {
+				continue
+			}
+			i := 0
+			for _, fld := range fd.Type.Params.List {
+				for _, nm := range fld.Names {
+					if info.Defs[nm] == obj {
+						fn, idx = info.Defs[fd.Name], i
+					}
+					i++
+				}
+			}
+		}
+	}
+	if fn == nil || idx < 0 {
+		return nil, false
+	}
+	var arg ast.Expr
+	n, same := 0, true
+	for _, f := range files {
+		ast.Inspect(f, func(nd ast.Node) bool {
+			c, ok := nd.(*ast.CallExpr)
+			if !ok || calleeObj(info, c) != fn || idx >= len(c.Args) {
+				return true
+			}
+			n++
+			if arg != nil && types.ExprString(arg) != types.ExprString(c.Args[idx]) {
+				same = false
+			}
+			arg = c.Args[idx]
+			return true
+		})
+	}
+	if n == 0 || !same {
+		return nil, false
+	}
+	return arg, true
 }
